@@ -9,7 +9,7 @@ From NV Require Import Text.TextBase Text.TextBaseProofs Vcf.Values Vcf.Line Vcf
 From NV Require Vcf.FileProofs.
 From NV Require Import Bcf.Ints Bcf.IntsProofs Bcf.Typed Bcf.Strings Bcf.Genotype Bcf.StringMap
   Bcf.StringMapProofs Bcf.Record Bcf.RecordProofs Bcf.RecordTyped Bcf.Bridge Bcf.BridgeProofs
-  Bcf.ColumnProofs Bcf.Lazy Bcf.LazySiteProofs Bcf.File.
+  Bcf.ColumnProofs Bcf.Lazy Bcf.LazySiteProofs Bcf.LazyEagerProofs Bcf.File.
 Import ListNotations.
 Open Scope Z_scope.
 
@@ -515,6 +515,145 @@ Proof.
   { destruct v as [|a [|b [|? ?]]]; try discriminate Lv. cbn [app version] in H9.
     inversion H9. split; reflexivity. }
   destruct Hv as [_ Hlb]. subst lb. rewrite le_val_le4 in Ht by lia. lia.
+Qed.
+
+(* ------------------------------------------------------------------ lazy file = eager file *)
+Open Scope Z_scope.
+(* the content normal form does not see what trec_norm identifies *)
+Lemma norm_cell_cell_norm : forall v44 c,
+  norm_cell v44 (value_of_cell (cell_norm v44 c)) = norm_cell v44 (value_of_cell c).
+Proof.
+  intros v44 c. destruct c as [o|s|o|s|o|s|o|s|o]; cbn [cell_norm]; try reflexivity.
+  - destruct s as [[|[x|] [|y l]]|]; reflexivity.
+  - destruct s as [[|[x|] [|y l]]|]; reflexivity.
+  - destruct s as [[|[x|] [|y l]]|]; reflexivity.
+  - destruct s as [[|[x|] [|y l]]|]; reflexivity.
+  - destruct o as [g|]; [|reflexivity]. unfold gt_norm. destruct v44; [reflexivity|].
+    destruct g as [|[p ph] t]; [reflexivity|].
+    cbn [value_of_cell option_map gn map fst snd norm_cell norm_val lone_missing].
+    destruct (on p) as [n|]; [reflexivity|]. destruct t as [|a t']; reflexivity.
+Qed.
+
+Lemma content_trec_norm : forall v44 t, content v44 (vrec_of (trec_norm v44 t)) = content v44 (vrec_of t).
+Proof.
+  intros v44 t. unfold content, vrec_of, trec_norm.
+  cbn [r_chrom r_pos r_ids r_ref r_alts r_qual r_filters r_info r_keys r_samples t_head t_info t_keys t_rows].
+  f_equal. rewrite !map_map. apply map_ext. intros row. f_equal. rewrite !map_map.
+  apply map_ext. intros c. apply norm_cell_cell_norm.
+Qed.
+
+Lemma trec_norm_content : forall v44 t t', trec_norm v44 t' = trec_norm v44 t ->
+  content v44 (vrec_of t') = content v44 (vrec_of t).
+Proof.
+  intros v44 t t' H. rewrite <- (content_trec_norm v44 t'), H. apply content_trec_norm.
+Qed.
+
+Lemma dec_frame_suffix : forall bs sb ib rest, dec_frame bs = Some (sb, ib, rest) ->
+  exists pre, bs = pre ++ rest.
+Proof.
+  intros bs sb ib rest H. unfold dec_frame in H.
+  destruct (take 4 bs) as [[a r1]|] eqn:E1; [|discriminate H].
+  destruct (le_val a =? 0); [discriminate H|].
+  destruct (take 4 r1) as [[b r2]|] eqn:E2; [|discriminate H].
+  destruct (take _ r2) as [[sb' r3]|] eqn:E3; [|discriminate H].
+  destruct (take _ r3) as [[ib' r4]|] eqn:E4; [|discriminate H].
+  assert (Hr : r4 = rest) by congruence. subst r4.
+  destruct (take_inv _ _ _ _ E1) as [B1 _]. destruct (take_inv _ _ _ _ E2) as [B2 _].
+  destruct (take_inv _ _ _ _ E3) as [B3 _]. destruct (take_inv _ _ _ _ E4) as [B4 _].
+  exists (a ++ b ++ sb' ++ ib'). rewrite B1, B2, B3, B4, <- !app_assoc. reflexivity.
+Qed.
+
+(* every record of the stream (at the record boundaries the loop visits) is in the class lazy_agree
+   (the eager MODEL's ASCII-Character limit, c10_lazy_agree_is_ascii) *)
+Fixpoint agree_all (fuel : nat) (s c : smap) (hc : hctx) (bs : list N) : bool :=
+  match fuel with
+  | O => true
+  | S f =>
+    if at_end bs then true
+    else match dec_frame bs with
+         | Some (_, _, rest) =>
+           lazy_agree s c (ik_of hc) (fk_of hc) (Z.of_nat (h_nsamples hc)) bs && agree_all f s c hc rest
+         | None => true
+         end
+  end.
+
+Definition same_content (v44 : bool) (l e : vrec) : Prop := content v44 l = content v44 e.
+
+Theorem read_lazy_of_eager : forall fuel s c hc prev bs backs,
+  byte_list bs -> agree_all fuel s c hc bs = true ->
+  read_eager fuel s c hc prev bs = (backs, EndEof) ->
+  exists lbacks, read_lazy fuel s c hc bs = (lbacks, EndEof) /\
+                 Forall2 (same_content (h_v44 hc)) lbacks backs.
+Proof.
+  induction fuel as [|f IH]; intros s c hc prev bs backs Hb Ha He.
+  - cbn [read_eager] in He. discriminate He.
+  - cbn [read_eager] in He. cbn [read_lazy]. cbn [agree_all] in Ha.
+    destruct (at_end bs); [inversion He; subst; exists []; split; [reflexivity|constructor]|].
+    destruct (dec_frame bs) as [[[sb ib] rest]|] eqn:Ef; [|discriminate He].
+    rewrite reused_recordbuf_independent in He.
+    destruct (bcf_read s c hc bs) as [r| |] eqn:Er; try discriminate He.
+    destruct (read_eager f s c hc r rest) as [rs e] eqn:Erest.
+    assert (Hbk : backs = r :: rs) by congruence. assert (Hend : e = EndEof) by congruence.
+    subst backs e. clear He.
+    apply andb_true_iff in Ha. destruct Ha as [Hag Hall].
+    unfold bcf_read in Er.
+    destruct (dec_record_typed s c (ik_of hc) (fk_of hc) (Z.of_nat (h_nsamples hc)) bs) as [t| |] eqn:Et;
+      cbn [rbind] in Er; try discriminate Er.
+    assert (Hr : r = vrec_of t) by congruence. subst r.
+    destruct (lazy_hdr_eq_eager (h_v44 hc) _ _ _ _ _ _ _ Hb Et Hag) as (t' & Hl & Hn).
+    rewrite Hl.
+    destruct (dec_frame_suffix _ _ _ _ Ef) as [pre Hpre].
+    assert (Hbr : byte_list rest).
+    { unfold byte_list in *. rewrite Hpre in Hb. apply Forall_app in Hb. exact (proj2 Hb). }
+    destruct (IH s c hc (vrec_of t) rest rs Hbr Hall Erest) as (lrs & Hlr & Hf2).
+    rewrite Hlr. exists (vrec_of t' :: lrs). split; [reflexivity|].
+    constructor; [exact (trec_norm_content _ _ _ Hn)|exact Hf2].
+Qed.
+
+(* file level: whenever the eager file read returns (backs, Ok(0)) on a byte stream whose records are
+   in lazy_agree, the lazy file read returns the same header and records with the same content *)
+Definition file_agree (bs : list N) : bool :=
+  match read_prefix bs with
+  | FOk (h, s, c, rest) => agree_all (file_fuel rest) s c (hctx_of_header h) rest
+  | _ => true
+  end.
+
+Lemma read_prefix_suffix : forall bs h s c rest, read_prefix bs = FOk (h, s, c, rest) ->
+  exists pre, bs = pre ++ rest.
+Proof.
+  intros bs h s c rest H. destruct (read_prefix_complete _ _ _ _ _ H) as (v & lb & text & Hb & _).
+  exists (magic ++ v ++ lb ++ text). rewrite Hb, <- !app_assoc. reflexivity.
+Qed.
+
+Theorem file_lazy_of_eager : forall bs hd backs,
+  byte_list bs -> file_agree bs = true ->
+  bcf_read_file bs = FOk (hd, (backs, EndEof)) ->
+  exists lbacks, bcf_read_file_lazy bs = FOk (hd, (lbacks, EndEof)) /\
+                 Forall2 (same_content (h_v44 (hctx_of_header hd))) lbacks backs.
+Proof.
+  intros bs hd backs Hb Ha He. unfold bcf_read_file in He. unfold bcf_read_file_lazy. unfold file_agree in Ha.
+  destruct (read_prefix bs) as [[[[h s] c] rest]| |] eqn:Ep; try discriminate He.
+  assert (Hh : h = hd) by congruence. subst h.
+  assert (Hre : read_eager (file_fuel rest) s c (hctx_of_header hd) rec0 rest = (backs, EndEof)) by congruence.
+  destruct (read_prefix_suffix _ _ _ _ _ Ep) as [pre Hpre].
+  assert (Hbr : byte_list rest).
+  { unfold byte_list in *. rewrite Hpre in Hb. apply Forall_app in Hb. exact (proj2 Hb). }
+  destruct (read_lazy_of_eager _ _ _ _ _ _ _ Hbr Ha Hre) as (lbacks & Hl & Hf).
+  exists lbacks. rewrite Hl. split; [reflexivity|exact Hf].
+Qed.
+
+(* ... hence for written files *)
+Theorem file_roundtrip_lazy : forall hd rs backs bs,
+  header_ok hd -> hdr_defs_ok hd = true -> hdr_vals_framed hd ->
+  (forall s c, maps_of_header hd = Some (s, c) -> Forall2 (file_rec_dom s c (hctx_of_header hd)) rs backs) ->
+  bcf_write_file hd rs = Ok bs ->
+  byte_list bs -> file_agree bs = true ->
+  exists lbacks, bcf_read_file_lazy bs = FOk (hd, (lbacks, EndEof)) /\
+                 Forall2 (same_content (h_v44 (hctx_of_header hd))) lbacks backs.
+Proof.
+  intros hd rs backs bs Hok Hd Hfr Hrs Hw Hb Ha.
+  apply file_lazy_of_eager; [exact Hb|exact Ha|].
+  apply (file_roundtrip hd rs backs bs Hok Hd Hfr Hrs Hw).
 Qed.
 
 (* ------------------------------------------------------------------ non-vacuity of the header premises *)
